@@ -35,3 +35,19 @@ Definition c01_moving_lib_statement : Prop :=
     (c_fail_at cfg = None ->
      Forall (fun x => snd x = ROk) (fk_run cfg (fs_init m) h) /\
      length (fk_run cfg (fs_init m) h) = length h).
+
+(* ---- discovery mode (no configured LIB, hold-until-LIB, as the hub uses): the LIB is the first stored
+   ancestor-or-self at the height a block declares; nothing is delivered before ---- *)
+Definition disc_scope_b (h : list block) : bool :=
+  wf_b h && lib_ok_b LNone h && forallb (fun b => negb (bparent b =? 0)) h.
+
+Definition c01_discovery_statement : Prop :=
+  forall cfg h,
+    c_hold cfg = true -> c_incl cfg = false ->
+    f_new (c_filter cfg) = true -> f_undo (c_filter cfg) = true ->
+    disc_scope_b h = true ->
+    c01_statement cfg LNone h /\
+    Forall (fun x => snd x = ROk \/ snd x = RHandlerErr) (fk_run cfg (fs_init LNone) h) /\
+    (c_fail_at cfg = None ->
+     Forall (fun x => snd x = ROk) (fk_run cfg (fs_init LNone) h) /\
+     length (fk_run cfg (fs_init LNone) h) = length h).
